@@ -783,38 +783,37 @@ fn bbox_of_composite(
     // Let's wait to see if that pops out in a profile and do the simple solution for now
     // Because transforms can skew/rotate the control box computed for the simple glyph isn't always reusable
 
+    // Composites still to visit, each with the transform accumulated on the way to it; kept
+    // here rather than on the call stack, which a long chain of nested composites would exhaust
+    let mut todo = vec![(composite, affine)];
     let mut bbox: Option<Rect> = None;
-    for component in composite.components() {
-        // The transform we get here has changed because it got turned into F2Dot14 and i16 parts
-        // We could go get the "real" transform from IR but ... this seems to match fontmake so far
-        let affine = affine * affine_for(component);
+    while let Some((composite, affine)) = todo.pop() {
+        for component in composite.components() {
+            // The transform we get here has changed because it got turned into F2Dot14 and i16 parts
+            // We could go get the "real" transform from IR but ... this seems to match fontmake so far
+            let affine = affine * affine_for(component);
 
-        let ref_glyph_name = glyph_order
-            .glyph_name(component.glyph.to_u16() as usize)
-            .unwrap();
-        let Some(ref_glyph) = glyphs.get(ref_glyph_name) else {
-            return Err(Error::MissingGlyphId(ref_glyph_name.clone()));
-        };
-        match &ref_glyph.data {
-            RawGlyph::Empty => continue, // no impact on our bbox
-            RawGlyph::Simple(ref_simple) => {
-                // Update our bbox to include the transformed points
-                for pt in ref_simple.contours.iter().flat_map(|c| c.iter()) {
-                    let pt = affine * Point::new(pt.x as f64, pt.y as f64);
-                    bbox = Some(if let Some(current) = bbox {
-                        current.union_pt(pt)
-                    } else {
-                        Rect::from_points(pt, pt)
-                    });
+            let ref_glyph_name = glyph_order
+                .glyph_name(component.glyph.to_u16() as usize)
+                .unwrap();
+            let Some(ref_glyph) = glyphs.get(ref_glyph_name) else {
+                return Err(Error::MissingGlyphId(ref_glyph_name.clone()));
+            };
+            match &ref_glyph.data {
+                RawGlyph::Empty => continue, // no impact on our bbox
+                RawGlyph::Simple(ref_simple) => {
+                    // Update our bbox to include the transformed points
+                    for pt in ref_simple.contours.iter().flat_map(|c| c.iter()) {
+                        let pt = affine * Point::new(pt.x as f64, pt.y as f64);
+                        bbox = Some(if let Some(current) = bbox {
+                            current.union_pt(pt)
+                        } else {
+                            Rect::from_points(pt, pt)
+                        });
+                    }
                 }
-            }
-            RawGlyph::Composite(ref_composite) => {
                 // Chase our components using an updated transform
-                if let Some(child_bbox) =
-                    bbox_of_composite(glyph_order, glyphs, ref_composite, affine)?
-                {
-                    bbox = bbox.map(|bbox| bbox.union(child_bbox)).or(Some(child_bbox));
-                }
+                RawGlyph::Composite(ref_composite) => todo.push((ref_composite, affine)),
             }
         }
     }
